@@ -15,7 +15,7 @@ Two ways to use it:
       checks/c07.py:  return patchmode.run("C07", tier, seed, replay, base=dict(mode="c07", prop="Props.C07", corr="corr:exclusion (...)"))
 """
 import json, os
-import codec
+import codec, rootmode
 from codecmode import MODELLED
 from generic import run_check
 from lib import *
@@ -64,7 +64,7 @@ def patch_post(state, timeout=3000):
     return post
 
 
-def run(pid, tier, seed, replay, base=None, timeout=3000):
+def run(pid, tier, seed, replay, base=None, timeout=3000, post=None):
     state = {}
 
     def build(work):
@@ -87,6 +87,7 @@ def run(pid, tier, seed, replay, base=None, timeout=3000):
             assume=[],
             coqchk_modules=["GR." + PATCH_PROP],
             driver_timeout=timeout,
+            post=post,
         )
     props = [base["prop"]] if isinstance(base["prop"], str) else list(base["prop"])
     return run_check(
@@ -100,5 +101,5 @@ def run(pid, tier, seed, replay, base=None, timeout=3000):
         assume=list(base.get("assume", ())),
         coqchk_modules=base.get("coqchk") or ["GR." + m for m in props + [PATCH_PROP]],
         driver_timeout=timeout,
-        post=patch_post(state, timeout),
+        post=rootmode.post_chain(patch_post(state, timeout), post),
     )
